@@ -237,7 +237,9 @@ def r3_annotation(ctx):
     n2 = MG + '::lazily_update_chess_move_effect_for_checks_and_checkmates'
     name = n2
     ap, un, se = CHESSMOVE + '::apply', CHESSMOVE + '::undo', CHESSMOVE + '::set_effect'
-    outs = Engine(facts, opaque={ap, un, se}, readonly={IN_CHECK, IN_MATE, EVAL + 'game_ending', EVAL + 'player_is_in_stalemate'}, max_paths=20000).run(n2)
+    # (move generation itself is never expanded here: a routine that classifies by looking at the reply list directly shows up as a
+    # path whose verdict does not rest on the in-check / in-mate atoms)
+    outs = Engine(facts, opaque={ap, un, se, GEN}, readonly={IN_CHECK, IN_MATE, EVAL + 'game_ending', EVAL + 'player_is_in_stalemate'}, max_paths=20000).run(n2)
     ctx.touch(n2)
     for h in facts.only_through({n2}):
         ctx.touch(h)
